@@ -21,7 +21,7 @@ PROPS = {
     ),
     "C02": dict(
         title="Instant <-> civil datetime under a fixed offset is exact and invertible",
-        verus=["itime", ("itime", "_static", STATIC), "kspec"],
+        verus=["itime", ("itime", "_static", STATIC), "kspec", "tsarith"],
         kani_quick=["c02_wrappers"],
         kani_thorough=[],
         design_ref="DESIGN.md section 4, C02",
